@@ -97,7 +97,7 @@ func buildInstrumented(kind string) (string, func(), error) {
 	env := append(os.Environ(), "GOFLAGS=-mod=mod", "GOPROXY=off", "GOSUMDB=off", "GOTOOLCHAIN=local", "GOCACHE=/verif/.cache/go-build")
 	// the rewrite must not change behaviour: /repo's own tests on the instrumented copy
 	t := exec.Command("go", "test", "-tags", "verif", "-overlay", rep.Overlay, "-vet=off", "-count=1", "go.1password.io/spg")
-	t.Dir = "/verif/harness"
+	t.Dir = core.Root + "/harness"
 	t.Env = env
 	if out, err := t.CombinedOutput(); err != nil {
 		// not fatal: a tree whose behaviour depends on map order may fail
@@ -108,12 +108,12 @@ func buildInstrumented(kind string) (string, func(), error) {
 		}
 		fmt.Printf("note: the repository's tests do not pass on the instrumented copy (canonical map order):\n%s\n", tail)
 	}
-	bin := "/verif/bin/check_" + kind
+	bin := core.Root + "/bin/check_" + kind
 	args := []string{"build", "-tags", "verif", "-overlay", rep.Overlay}
 	if kind == "race" {
 		args = append(args, "-race")
 		// scratch go.mod that also replaces golang-set by its vsync copy
-		gm, err := os.ReadFile("/verif/harness/go.mod")
+		gm, err := os.ReadFile(core.Root + "/harness/go.mod")
 		if err != nil {
 			return "", cleanup, err
 		}
@@ -121,13 +121,13 @@ func buildInstrumented(kind string) (string, func(), error) {
 		if err := os.WriteFile(dir+"/go.mod", gm, 0o644); err != nil {
 			return "", cleanup, err
 		}
-		gs, _ := os.ReadFile("/verif/harness/go.sum")
+		gs, _ := os.ReadFile(core.Root + "/harness/go.sum")
 		os.WriteFile(dir+"/go.sum", gs, 0o644)
 		args = append(args, "-modfile="+dir+"/go.mod")
 	}
 	args = append(args, "-o", bin, "./cmd/check")
 	b := exec.Command("go", args...)
-	b.Dir = "/verif/harness"
+	b.Dir = core.Root + "/harness"
 	b.Env = env
 	if out, err := b.CombinedOutput(); err != nil {
 		return "", cleanup, fmt.Errorf("building the instrumented worker: %v\n%s", err, out)
